@@ -64,6 +64,7 @@ type scheduler struct {
 	nclock   int
 	jitter   uint64 // J in ns
 	maxAdv   uint64 // largest single advance of the clock at a yield point
+	pollCost int64  // virtual nanoseconds that pass at every deadline poll of a matcher ((*Runner).CheckTimeout); 0 = none
 	deadlock bool
 	killed   bool
 	// voluntaryChoice: also branch on who runs next when the current coroutine gives up the
